@@ -538,20 +538,21 @@ def request_words(decl: dict, case: dict, settings: Dict[str, Any], tails: List[
         for o in e["ops"]:
             w = ["1" if o["deleted"] else "0"]
             for c in o["corners"]:
-                w += [_coord_words(x) for x in c["pos"]] + [w_str(str(x)) for x in _np_strs(c["pos"])]
+                w += [_coord_words(x) for x in c["pos"]]
                 w += w_list([[w_str(l)] for l in c["proj"]])
             w += [w_opt(n) for n in o["patches"]]
             w += [w_opt(n) for n in o["side_proj"]]
             w += [w_opt(o["bottom_proj"]), w_opt(o["top_proj"])]
             w += [w_str(o["zone"])]
             if o["deleted"]:
-                tail = [[], True, {f"{a}-{b}": [] for a, b in WIRE_KEYS}]
+                tail = [[], True, {f"{a}-{b}": [] for a, b in WIRE_KEYS}, {f"{a}-{b}": [] for a, b in WIRE_KEYS}]
             else:
                 tail = tails[k]
                 k += 1
             w += [str(len(tail[0]))] + [str(int(x)) for x in tail[0]] + ["1" if tail[1] else "0"]
             for a, b in WIRE_KEYS:
-                w += [str(a), str(b)] + w_toks(tail[2][f"{a}-{b}"])
+                spec = tail[3][f"{a}-{b}"] if len(tail) > 3 else []
+                w += [str(a), str(b), str(len(spec))] + [_pynum_word(x) for d in spec for x in d]
             for ed in o["edges"]:
                 w += ed
             ops.append(w)
@@ -559,6 +560,23 @@ def request_words(decl: dict, case: dict, settings: Dict[str, Any], tails: List[
     words += w_list(ents)
     words.append("1" if case.get("reassemble") or case.get("rewrite") else "0")
     return words
+
+
+def _pynum_word(x) -> str:
+    """a number of a Grading.specification for the model: `I<int>` for a python / numpy integer, `F<exact rational>` for a
+    float (the model prints it: str(float) = shortest round-trip repr)"""
+    import numpy as np
+
+    if isinstance(x, (bool, int, np.integer)):
+        return "I" + str(int(x))
+    return "F" + _coord_words(float(x))
+
+
+def _spec_nums(spec) -> list:
+    """[ratio, count, expansion] per division, as JSON-serialisable numbers that keep int / float apart"""
+    import numpy as np
+
+    return [[int(x) if isinstance(x, (bool, int, np.integer)) else float(x) for x in d] for d in spec]
 
 
 def _np_strs(pos: List[float]) -> List[str]:
@@ -587,9 +605,9 @@ class C06(core.Check):
     )
     assumptions = [
         "the tokenizer of the harness (cbv/props/c06.py: tokenize) maps the text of the file to tokens faithfully",
-        "per-wire grading values of hex lines (their order in the entry is modelled), validity and point positions of curved edges "
-        "(their text is printed by the model), the values of the counts (printed by the model), str() of setting values and of "
-        "float64 coordinates in the VTK are taken from the implementation (C01-C04, C07, C08)",
+        "the numbers of the per-wire Grading.specification and the counts of hex lines, validity and point positions of curved edges "
+        "are taken from the implementation (C01-C04, C07, C08) -- their text is printed by the model; str() of setting values "
+        "and geometry properties are opaque tokens",
         "points of one program are either identical up to float noise or >= 100 TOL apart (merging itself is C05)",
         "names, labels and zones contain no blanks, brackets, `;` and do not start with `//`",
     ]
@@ -597,11 +615,11 @@ class C06(core.Check):
         "Theorems: bracket-layer and schema-layer round trip of the parser on every dictionary with semicolon-free "
         "statements, structural facts of the assembled dictionary, the text of every %.8f number (reads back to within half a "
         "unit of the 8th decimal, well-formed). Text <-> token conversion is validated by the correspondence, not proved; "
-        "grading values (str(float)) stay opaque."
+        "str(float) of grading values and VTK coordinates is generated by the model and validated (accepted tokens are within half an ulp: proved; that the generator is always accepted: run-time check only)."
     )
 
     def gen_cases(self, rng: random.Random, tier: str) -> List[dict]:
-        n = 90 if tier == "quick" else 1500
+        n = 60 if tier == "quick" else 1000
         cases = [gen_program(rng, tier) for _ in range(n)]
         # malformed stream: ill-formed requests must be answered `bad-op`, unbalanced files `noparse`
         cases += [
@@ -663,7 +681,8 @@ class C06(core.Check):
         tails = []
         for b in mesh.block_list.blocks:
             wires = {f"{c1}-{c2}": tokenize(b.wires[c1][c2].grading.description) for c1, c2 in WIRE_KEYS}
-            tails.append([[int(a.count) for a in b.axes], all(a.is_simple for a in b.axes), wires])
+            specs = {f"{c1}-{c2}": _spec_nums(b.wires[c1][c2].grading.specification) for c1, c2 in WIRE_KEYS}
+            tails.append([[int(a.count) for a in b.axes], all(a.is_simple for a in b.axes), wires, specs])
         settings = {k: v for k, v in mesh.settings.items()}
         obs = {
             "decl": decl,
@@ -694,10 +713,10 @@ class C06(core.Check):
             return None if model[0] == case["want"] else f"request {case['req']!r}: answer {model[0][:80]!r}, expected {case['want']}"
         if impl.get("vtk_missing"):
             return "write(path, debug_path) did not write the debug VTK"
-        m = re.fullmatch(r"ok idx=(\d) geom=(\d) quads=(\d) rt=(\d) T ?(.*)", model[0])
+        m = re.fullmatch(r"ok idx=(\d) geom=(\d) quads=(\d) rt=(\d) num=(\d) T ?(.*)", model[0])
         if not m:
             return "model: " + model[0][:200]
-        toks = [unesc(t) for t in m.group(5).split(" ")] if m.group(5) else []
+        toks = [unesc(t) for t in m.group(6).split(" ")] if m.group(6) else []
         real = impl["tokens"]
         if toks != real:
             for i, (a, b) in enumerate(zip(toks, real)):
@@ -706,6 +725,8 @@ class C06(core.Check):
             return f"token streams differ in length: file {len(real)}, model {len(toks)}; file tail {real[len(toks) - 3:len(toks) + 5]}, model tail {toks[len(real) - 3:len(real) + 5]}"
         if m.group(4) != "1":
             return "the verified parser does not read the model's rendering back (instance of T_C06_roundtrip fails)"
+        if m.group(5) != "1":
+            return "a grading number printed by the model fails the validator reprOk / reprShortest (instance of T_C06_repr_value)"
         p = model[1]
         if not p.startswith("ok ") or "same=1" not in p:
             return "the written file does not parse with the verified parser: " + p[:200]
@@ -714,10 +735,10 @@ class C06(core.Check):
             return f"flags of the parsed file {flags} differ from those of the model {m.groups()[:3]}"
         impl["flags"] = flags
         if impl["vtk"] is not None:
-            mv = re.fullmatch(r"ok rt=(\d) T ?(.*)", model[2])
+            mv = re.fullmatch(r"ok rt=(\d) num=(\d) T ?(.*)", model[2])
             if not mv:
                 return "model vtk: " + model[2][:200]
-            vt = [unesc(t) for t in mv.group(2).split(" ")] if mv.group(2) else []
+            vt = [unesc(t) for t in mv.group(3).split(" ")] if mv.group(3) else []
             if vt != impl["vtk"]:
                 for i, (a, b) in enumerate(zip(vt, impl["vtk"])):
                     if a != b:
@@ -725,6 +746,8 @@ class C06(core.Check):
                 return f"vtk streams differ in length: file {len(impl['vtk'])}, model {len(vt)}"
             if mv.group(1) != "1":
                 return "parseVtk does not read the model's VTK back"
+            if mv.group(2) != "1":
+                return "a VTK coordinate printed by the model fails the validator reprOk / reprShortest"
         return None
 
     # ------------------------------------------------------------------ oracle: the property on the file itself
@@ -888,6 +911,30 @@ class C06(core.Check):
                             bad("Block.description:simpleGrading-for-different-wires", f"block {k}: {wires}")
                     else:
                         bad("Block.description:grading-keyword", f"block {k}: {gk}")
+                    if len(want_tail) > 3 and gk in ("edgeGrading", "simpleGrading"):
+                        # every number of the grading reads back (python float(): correctly rounded) to exactly the
+                        # double the Grading object holds; integers are written as integers
+                        order = BM_GRADING_ORDER if gk == "edgeGrading" else [(0, 1), (0, 3), (0, 4)]
+                        nums = []
+                        for a, b in order:
+                            sp = want_tail[3]["%d-%d" % tuple(sorted((a, b)))]
+                            nums += [sp[0][2]] if len(sp) == 1 else [x for d in sp for x in d]
+
+                        def leaves(t):
+                            return [t] if isinstance(t, str) else [x for u in t[1] for x in leaves(u)]
+
+                        file_nums = [x for t in grad for x in leaves(t)]
+                        if len(file_nums) != len(nums):
+                            bad("Block.description:grading-numbers", f"block {k}: file {file_nums}, specification {nums}")
+                        else:
+                            for tok, val in zip(file_nums, nums):
+                                try:
+                                    same = (tok == str(val)) if isinstance(val, int) else (float(tok) == val and "n" not in tok.lower())
+                                except ValueError:
+                                    same = False
+                                if not same:
+                                    bad("Block.description:grading-number-does-not-read-back", f"block {k}: token {tok!r} for the value {val!r}")
+                                    break
                 for c in range(8):
                     pos = o["corners"][c]["pos"]
                     got = verts[ix[c]]["xyz"]
